@@ -70,9 +70,123 @@ static void emit_api(void)
     free(txt);
 }
 
+/* every statement of cbuf.c that ADDS or SUBTRACTS (binary + -, += -=, ++ --): `(function, statement
+ * with all white space removed)`, in source order, duplicates within a function removed; the source
+ * line of each goes into a comment.  Cbuf/IntExprs.lean classifies each of them (which bound keeps it
+ * inside a C int) and Props/C13.lean proves that the classification covers this list
+ * (`int_exprs_covered`) -- an expression ADDED to cbuf.c breaks the build of the theorems instead of
+ * silently escaping `index_arithmetic_no_overflow`.  Comments and preprocessor lines are blanked;
+ * a unary minus (`-1`, `return(-1)`) is not arithmetic. */
+static char *slurp_c(const char *rel, long *pn)
+{
+    const char *repo = getenv("VERIF_REPO");
+    char path[4096], *txt;
+    long n, i;
+    FILE *f;
+    snprintf(path, sizeof path, "%s/%s", repo && *repo ? repo : "/repo", rel);
+    f = fopen(path, "r");
+    if (!f) { fprintf(stderr, "cannot read %s\n", path); exit(1); }
+    fseek(f, 0, SEEK_END); n = ftell(f); rewind(f);
+    txt = malloc(n + 2);
+    n = (long) fread(txt, 1, n, f); txt[n] = txt[n + 1] = 0;
+    fclose(f);
+    for (i = 0; i < n; i++) {
+        if (txt[i] == '/' && txt[i + 1] == '*') {
+            while (i < n && !(txt[i] == '*' && txt[i + 1] == '/')) { if (txt[i] != '\n') txt[i] = ' '; i++; }
+            if (i < n) { txt[i] = ' '; txt[i + 1] = ' '; }
+        } else if (txt[i] == '\'' ) {            /* character literal: keep, skip */
+            i++; if (txt[i] == '\\') i++; i++;
+        } else if (txt[i] == '"') {
+            for (i++; i < n && txt[i] != '"'; i++) if (txt[i] == '\\') i++;
+        } else if (txt[i] == '#' ) {
+            long j = i - 1;
+            while (j >= 0 && (txt[j] == ' ' || txt[j] == '\t')) j--;
+            if (j < 0 || txt[j] == '\n') {       /* preprocessor line (with continuations) */
+                while (i < n && txt[i] != '\n') { if (txt[i] == '\\' && txt[i + 1] == '\n') { txt[i] = ' '; i++; } else txt[i++] = ' '; }
+            }
+        }
+    }
+    *pn = n;
+    return txt;
+}
+static int is_id(int c) { return isalnum(c) || c == '_'; }
+/* does the statement text s[0..n) contain additive arithmetic? */
+static int has_arith(const char *s, long n)
+{
+    long i, j;
+    for (i = 0; i < n; i++) {
+        if (s[i] == '\'') { i++; if (s[i] == '\\') i++; i++; continue; }
+        if (s[i] == '-' && s[i + 1] == '>') { i++; continue; }
+        if (s[i] != '+' && s[i] != '-') continue;
+        if (s[i + 1] == s[i] || s[i + 1] == '=') return 1;                /* ++ -- += -= */
+        for (j = i - 1; j >= 0 && isspace((unsigned char) s[j]); j--) ;
+        if (j >= 0 && (is_id((unsigned char) s[j]) || s[j] == ')' || s[j] == ']')) {
+            /* binary, unless the word before is `return` */
+            long e = j + 1;
+            while (j >= 0 && is_id((unsigned char) s[j])) j--;
+            if (!(e - j - 1 == 6 && strncmp(s + j + 1, "return", 6) == 0)) return 1;
+        }
+    }
+    return 0;
+}
+static void emit_int_exprs(void)
+{
+    long n, i, start = 0, line = 1, sline = 1;
+    char *txt = slurp_c("src/pdsh/cbuf.c", &n);
+    char fn[128] = "", seen[400][512], cmt[1 << 15];
+    int depth = 0, paren = 0, nseen = 0, k = 0;
+    size_t cl = 0;
+    cmt[0] = 0;
+    printf("def CBUF_INT_EXPRS : List (String × String) := [");
+    for (i = 0; i < n; i++) {
+        int c = (unsigned char) txt[i];
+        if (c == '\n') line++;
+        if (c == '\'') { i++; if (txt[i] == '\\') i++; i++; continue; }
+        if (depth == 0 && strncmp(txt + i, "cbuf_", 5) == 0 && (i == 0 || !is_id((unsigned char) txt[i - 1]))) {
+            long j = i, e;
+            while (is_id((unsigned char) txt[j])) j++;
+            e = j;
+            while (isspace((unsigned char) txt[j])) j++;
+            if (txt[j] == '(' && e - i < (long) sizeof fn) { memcpy(fn, txt + i, e - i); fn[e - i] = 0; nseen = 0; }
+        }
+        if (c == '(') paren++;
+        if (c == ')') paren--;
+        if ((c == '{' || c == '}' || c == ';') && paren == 0) {
+            if (depth >= 1 && has_arith(txt + start, i - start)) {
+                char s[512];
+                long j, m = 0;
+                int dup = 0, q;
+                for (j = start; j < i && m < (long) sizeof s - 1; j++)
+                    if (!isspace((unsigned char) txt[j])) s[m++] = txt[j];
+                s[m] = 0;
+                for (q = 0; q < nseen; q++) if (strcmp(seen[q], s) == 0) dup = 1;
+                if (!dup && nseen < 400) {
+                    strcpy(seen[nseen++], s);
+                    printf("%s\n  (\"%s\", \"", k++ ? "," : "", fn);
+                    for (j = 0; j < m; j++) { if (s[j] == '"' || s[j] == '\\') putchar('\\'); putchar(s[j]); }
+                    printf("\")");
+                    cl += snprintf(cmt + cl, sizeof cmt - cl, "--   %s:%ld  %s\n", fn, sline, s);
+                    if (cl >= sizeof cmt) cl = sizeof cmt - 1;
+                }
+            }
+            if (c == '{') depth++;
+            if (c == '}') depth--;
+            start = i + 1;
+            sline = line;
+        } else if (isspace(c) && start == i) {
+            start = i + 1;              /* a statement starts at its first non-blank character */
+            sline = line;
+        }
+    }
+    printf("]\n-- source lines of the statements above (cbuf.c of the tree under test):\n%s", cmt);
+    if (k == 0) { fprintf(stderr, "no arithmetic found in cbuf.c\n"); exit(1); }
+    free(txt);
+}
+
 int main(void)
 {
     emit_api();
+    emit_int_exprs();
     LEAN_NAT("CBUF_CHUNK", CBUF_CHUNK);
     LEAN_NAT("CBUF_NO_DROP", CBUF_NO_DROP);
     LEAN_NAT("CBUF_WRAP_ONCE", CBUF_WRAP_ONCE);
